@@ -271,6 +271,28 @@ def handle (a : Args) : String :=
     let flat := ofl.toList.map fun i => lab.getD i.toNat 0
     let acc := (allPos shape).map (voronoiSpec shape lab)
     s!"acc={showAcc acc} model={showInts model} flat={showInts flat}"
+  | "distl" =>
+    -- specification only, O(N * #background): for very long lines with sparse background
+    let bw := (a.ints "data").toArray
+    let sel := (List.range bw.size).filter fun i => bw.getD i 1 == 0
+    let selP := sel.map (unravelI shape)
+    let spec := (allPos shape).map fun p => (selP.foldl (fun (m : Option Int) q =>
+        let d := sqDist p q
+        match m with | none => some d | some m => some (min m d)) none).getD (-1)
+    s!"spec={showInts spec} maxd={maxDist2 shape}"
+  | "gvorl" =>
+    -- specification only, O(N * #labelled pixels)
+    let lab := (a.ints "data").toArray
+    let sel := (List.range lab.size).filter fun i => lab.getD i 0 != 0
+    let selP := sel.map fun i => (unravelI shape i, lab.getD i 0)
+    let acc := (allPos shape).map fun p =>
+      let d := selP.foldl (fun (m : Option Int) ql =>
+        let d := sqDist p ql.1
+        match m with | none => some d | some m => some (min m d)) none
+      match d with
+      | none => []
+      | some d => (selP.filterMap fun ql => if sqDist p ql.1 == d then some ql.2 else none).eraseDups
+    s!"acc={showAcc acc}"
   | "dt1d" =>
     let f := (a.ints "data").toArray
     let spec := (List.range f.size).map (minPlus1d f)
